@@ -1,0 +1,6 @@
+//go:build !verif
+// +build !verif
+
+package tensor
+
+func verifHook(event string, size int, id uintptr) {}
